@@ -322,4 +322,60 @@ def obligations(prop):
         wrap(f"{prop}_G3_tables", lambda: generate(only=G3_SITES[prop]), "source:pvalue-table")
     if prop in FORMULAS:
         wrap(f"{prop}_G4_formulas", lambda: generate_formulas(prop), "source:formula")
+    if prop in GUARDS:
+        wrap(f"{prop}_G5_guards", lambda: generate_guards(prop), "source:guards")
     return out
+
+
+# =========================================================================================================
+# G5: argument guards.  The statements of a function up to the first "real" computation are read in order; every
+# `if <comparison of parameters>: raise ValueError(...)` contributes one disjunct; asserts on `alternative` and
+# docstrings are skipped; anything else before the first computation fails closed.  The disjunction is compared with
+# the model's guard (Lib/TailTables.v) for all natural-number arguments.
+CMPOP = {ast.Lt: "<?", ast.Gt: ">?", ast.LtE: "<=?", ast.GtE: ">=?"}
+
+
+def guard_conditions(fn, params, stop_at):
+    conds = []
+    for st in fn.body:
+        if isinstance(st, ast.Expr) and isinstance(st.value, ast.Constant):
+            continue                                    # docstring
+        if isinstance(st, ast.Assert):
+            continue                                    # assert alternative in (...)
+        if isinstance(st, ast.Assign) and ast.unparse(st.targets[0]) == stop_at:
+            return conds                                # first computation: the guards end here
+        if (isinstance(st, ast.If) and not st.orelse and len(st.body) == 1 and isinstance(st.body[0], ast.Raise)
+                and isinstance(st.body[0].exc, ast.Call) and getattr(st.body[0].exc.func, "id", None) == "ValueError"
+                and isinstance(st.test, ast.Compare) and len(st.test.ops) == 1 and type(st.test.ops[0]) in CMPOP
+                and isinstance(st.test.left, ast.Name) and isinstance(st.test.comparators[0], ast.Name)
+                and st.test.left.id in params and st.test.comparators[0].id in params):
+            a, b, op = st.test.left.id, st.test.comparators[0].id, type(st.test.ops[0])
+            if op is ast.Gt: a, b, op = b, a, ast.Lt
+            if op is ast.GtE: a, b, op = b, a, ast.LtE
+            conds.append(f"({'Nat.ltb' if op is ast.Lt else 'Nat.leb'} {a} {b})")
+            continue
+        raise Unsupported("unexpected statement before the first computation: " + ast.unparse(st)[:80])
+    raise Unsupported(f"no assignment to {stop_at}")
+
+
+GUARDS = {"C14": [("hypergeometric", "utils", "hypergeometric", ["x", "N", "n", "G"], "plower", "hyper_guard x N n G"),
+                  ("binomial_p", "utils", "binomial_p", ["x", "n"], "plower", "binom_guard x n")]}
+
+
+def generate_guards(prop, repo=None):
+    repo = repo or os.environ.get("VERIF_REPO", "/repo")
+    lines = ["From Coq Require Import Arith Bool Lia.", "From PV Require Import Lib.Base Lib.TailTables.", ""]
+    detail = []
+    for name, mod, fname, params, stop, model in GUARDS[prop]:
+        fn = find_function(ast.parse(open(os.path.join(repo, "permute", mod + ".py")).read()), fname)
+        conds = guard_conditions(fn, set(params), stop)
+        if not conds:
+            raise Unsupported(f"{fname}: no guard left")
+        body = " || ".join(conds)
+        ps = " ".join(params)
+        lines.append(f"Definition src_guard_{name} ({ps} : nat) : bool := {body}.")
+        lines.append(f"Theorem G5_{name} : forall {ps} : nat, src_guard_{name} {ps} = {model}.")
+        lines.append(f"Proof. intros. unfold src_guard_{name}. guard_tac. Qed.")
+        lines.append("")
+        detail.append({"site": f"{mod}.{fname}", "guards": conds})
+    return "\n".join(lines), detail
